@@ -2,7 +2,7 @@
    Statements only (copied from the lemma libraries); every proof is a bare
    `exact`; see the cited files in coq/proofs for the proofs. *)
 From Coq Require Import List NArith ZArith Bool Arith Sorting.Sorted Sorting.Permutation.
-From D2P Require Import Str Err Xml TableTypes Tables Fmt Bullets Merge Collector Walk ShapeFacts TokFacts FrameFacts MergeFacts Predicates SeqFacts LineageFacts BulletsFacts.
+From D2P Require Import Str Err Xml TableTypes Tables Fmt Bullets Merge Collector Walk ShapeFacts TokFacts FrameFacts MergeFacts Predicates SeqFacts LineageFacts BulletsFacts GridFacts LineageFacts GridWalk BlocksSpec.
 Import ListNotations.
 
 (* refinement to the declarative spec: walking a paragraph whose content is inline (any nesting of runs, wrappers, unknown elements, hyperlinks, pictures, forms, equations; no nested paragraph, table cell, note or comment marker) appends exactly ONE record after all earlier ones, pointing at that element, with its style, whose tokens are: queued note label, list marker, then the contributions of its children in document order - nothing else, nothing twice, nothing from elsewhere; the open-paragraph stack and comment ranges are untouched *)
@@ -148,3 +148,56 @@ Theorem C02_paragraph_sequence_partial :
     /\ c_open s' = [] /\ Inv s'.
 Proof. exact kids_of_simple_pars_partial. Qed.
 Print Assumptions C02_paragraph_sequence_partial.
+
+(* A WHOLE PART of paragraphs AND tables (any number, any order, inert elements such as sectPr and bookmarks between them): the extracted structure is, block by block in document order, one [[[records]]] group per maximal run of free paragraphs and the grid table (C04) per table, each record tied to its own source paragraph: element path, style, lineage, and tokens = list marker followed by what its children contribute *)
+Theorem C02_whole_part_with_tables :
+  forall v e ks path s,
+  mem_str (e_ptag e) depth_none_tags = true -> forallb root_ok ks = true ->
+  collect_from v path (AE e ks) = Ok s ->
+  exists brs,
+    Forall2 (brel v path) (sel is_blk ks 0) brs /\
+    unrev_list (c_tree s) = spec_blocks (env_dup v) brs [].
+Proof. exact blocks_tree_spec. Qed.
+Print Assumptions C02_whole_part_with_tables.
+
+(* hence, without merged cells: the records point at ALL w:p elements of the part - free ones and those in cells - in document order, each exactly once: nothing lost, duplicated or reordered *)
+Theorem C02_every_paragraph_once :
+  forall v e ks path s,
+  mem_str (e_ptag e) depth_none_tags = true -> forallb root_ok ks = true ->
+  forallb blk_unmerged ks = true ->
+  collect_from v path (AE e ks) = Ok s ->
+  exists ps, pars_at 4 (c_tree s) = Ok ps /\
+    map p_elem ps = map Some (wp_paths path (AE e ks)).
+Proof. exact blocks_every_paragraph_once. Qed.
+Print Assumptions C02_every_paragraph_once.
+
+(* with merged cells: the same for the records that are not copies or fills, provided duplication is off or no cell is a vertical continuation (documented merged-cell duplication aside) *)
+Theorem C02_every_paragraph_once_merged_partial :
+  forall v e ks path s,
+  mem_str (e_ptag e) depth_none_tags = true -> forallb root_ok ks = true ->
+  forallb (blk_mergeable (env_dup v)) ks = true ->
+  collect_from v path (AE e ks) = Ok s ->
+  exists ps, pars_at 4 (c_tree s) = Ok ps /\
+    map p_elem (filter is_own ps) = map Some (wp_paths path (AE e ks)).
+Proof. exact blocks_every_paragraph_once_partial. Qed.
+Print Assumptions C02_every_paragraph_once_merged_partial.
+
+(* the clause is needed: with duplication on, the own paragraphs of a vMerge continuation cell are overwritten by the copy of the cell above (Word writes an empty paragraph there) *)
+Theorem C02_continuation_content_refuted :
+  exists v e ks path s ps,
+    mem_str (e_ptag e) depth_none_tags = true /\ forallb root_ok ks = true /\
+    collect_from v path (AE e ks) = Ok s /\ pars_at 4 (c_tree s) = Ok ps /\
+    In [1;0;1;0;9]%nat (wp_paths path (AE e ks)) /\
+    ~ In (Some [1;0;1;0;9]%nat) (map p_elem ps) /\
+    map p_elem (filter is_own ps) <> map Some (wp_paths path (AE e ks)).
+Proof. exact blocks_every_paragraph_once_counterexample. Qed.
+Print Assumptions C02_continuation_content_refuted.
+
+(* every record of the part - copies included - carries exactly the marker and the contributions of the paragraph it points at; a record pointing nowhere (blank fill) has no text: text never migrates between paragraphs and nothing is emitted that does not derive from the part *)
+Theorem C02_text_never_migrates :
+  forall v e ks path s ps,
+  mem_str (e_ptag e) depth_none_tags = true -> forallb root_ok ks = true ->
+  collect_from v path (AE e ks) = Ok s -> pars_at 4 (c_tree s) = Ok ps ->
+  Forall (rec_ok v path (AE e ks)) ps.
+Proof. exact blocks_text_of_paragraph. Qed.
+Print Assumptions C02_text_never_migrates.
